@@ -186,7 +186,7 @@ var c01URLPieces = struct {
 	schemes: []string{"", "", "http://", "https://", "HTTP://", "hTTps://", "ftp://", "http:", "localhost:", "//", "///", "1http://", "ht tp://", ":", "a+b-c.d://"},
 	hosts: []string{"", "example.com", "example.com:8080", "example.com:", "127.0.0.1", "127.0.0.1:1", "[::1]", "[::1]:80", "[::1]:", "[fe80::1%25en0]", "[fe80::1%25en0]:8", "[::1", "::1]", "EXAMPLE.com",
 		"ex ample.com", "exa%6dple.com", "ex%C3%BCmple.com", "münchen.de", "user@example.com", "user:pw@example.com", "u%20s:p%40w@h", "a@b@c", "us er@h", "h:80:90", "h:8a", "h:-1", "host<>\"", "a%zz", "%25", "h%25", "[::1%2541]", "[v1.x]:1"},
-	paths: []string{"", "/", "/a", "/a/b", "/a/b/", "//a", "/a//b", "a", "a/b", "a:b", "a:b/c", "./a:b", "/a%2Fb", "/a%2fb", "/a%zz", "/a%", "/%41", "/a b", "/ü", "/%C3%BC", "/a;b,c", "/a:b@c", "/~-_.!$&'()*+,;=:@", "/a[b]", "/a{b}", "/a|b", "/a\"b", "/a<b>", "/a\\b", "/a^b`", "*", "/*", "/a\x7fb", "/a\tb", "/\xff"},
+	paths:   []string{"", "/", "/a", "/a/b", "/a/b/", "//a", "/a//b", "a", "a/b", "a:b", "a:b/c", "./a:b", "/a%2Fb", "/a%2fb", "/a%zz", "/a%", "/%41", "/a b", "/ü", "/%C3%BC", "/a;b,c", "/a:b@c", "/~-_.!$&'()*+,;=:@", "/a[b]", "/a{b}", "/a|b", "/a\"b", "/a<b>", "/a\\b", "/a^b`", "*", "/*", "/a\x7fb", "/a\tb", "/\xff"},
 	queries: []string{"", "", "?", "?a=1", "?a=1&b=2", "?a=b c", "?a=%zz", "?a=ü", "?a=1?b=2", "??", "?a[]=1", "?{x}", "?a=1#", "?a;b", "? ", "?\u00a0", "?\u3000 \u2003\u0085", "?%20", "? a", "?\u2029\u205f\u1680", "?\xc2", "?\xe2\x80"},
 	frags:   []string{"", "", "", "#", "#f", "#f g", "#f%20g", "#f%zz", "#ü", "#a#b", "#!()*", "#a\x01b"},
 }
@@ -245,6 +245,88 @@ type c01URLCase struct {
 	tmplFrag   string
 	segVals    []string // for each path segment: the expected unescaped value, "\x00skip" when not checked
 	mayFail    bool     // the call may fail (never: reach the wire differently)
+	// how every segment was written (for re-computing segVals after the path maps were edited):
+	// segKey[i] = the placeholder's key ("\x00lit" = a literal), segWrap[i] = written as p-{key}-s
+	segKey   []string
+	segWrap  []bool
+	relative bool
+}
+
+// c01Resegment recomputes the oracle's expected segment values from the CURRENT path maps.
+func c01Resegment(c *c01URLCase) {
+	if !c.structured || len(c.segKey) != len(c.segVals) {
+		return
+	}
+	for i, k := range c.segKey {
+		if k == "\x00lit" {
+			continue
+		}
+		v, ok := c.rPath[k]
+		if !ok {
+			v, ok = c.cPath[k]
+		}
+		switch {
+		case !ok:
+			c.segVals[i] = "\x00skip"
+		case c.segWrap[i]:
+			c.segVals[i] = "p-" + v + "-s"
+		default:
+			c.segVals[i] = v
+		}
+	}
+	if c.relative {
+		c.mayFail = c.nSeg > 0 && len(c.segVals) > 0 && c.segVals[0] == ""
+	}
+}
+
+// c01EditURLCase (round 6): the description of the SAME *Request is changed between two runs of
+// parseRequestURL — one field family: request path values, client path values, both, request /
+// client query maps, or everything (another template with its own maps). The template and the
+// keys stay when only values change, so a stale expansion would go unnoticed by nothing else.
+func c01EditURLCase(r *rand.Rand, tc c01URLCase) (c01URLCase, string) {
+	e := tc
+	e.segVals = append([]string(nil), tc.segVals...)
+	newVals := func(m map[string]string) map[string]string {
+		if m == nil {
+			return nil
+		}
+		out := map[string]string{}
+		for k := range m {
+			out[k] = c01RandValue(r)
+		}
+		return out
+	}
+	what := verifh.Pick(r, []string{"rpath", "rpath", "cpath", "paths", "rquery", "cquery", "all"})
+	if what == "rpath" && len(tc.rPath) == 0 {
+		what = "paths"
+	}
+	switch what {
+	case "rpath":
+		e.rPath = newVals(tc.rPath)
+	case "cpath":
+		e.cPath = newVals(tc.cPath)
+	case "paths":
+		e.rPath, e.cPath = newVals(tc.rPath), newVals(tc.cPath)
+		if r.Intn(3) == 0 && len(e.rPath) > 0 {
+			// a request-level key is REMOVED: the client-level value (or the bare placeholder) shows
+			for k := range e.rPath {
+				delete(e.rPath, k)
+				break
+			}
+		}
+	case "rquery":
+		e.rQuery = c01RandQMap(r, 3)
+	case "cquery":
+		e.cQuery = c01RandQMap(r, 3)
+	default:
+		if tc.structured {
+			e = c01GenStructured(r)
+		} else {
+			e = c01GenWild(r)
+		}
+	}
+	c01Resegment(&e)
+	return e, what
 }
 
 var c01LitSegs = []string{"a", "api", "v1", "users", "x.y", "a%2Fb", "a%20b", "ü", "a;b", "a,b", "a:b", "a@b", "~", "a+b", "a=b", "a&b", "*"}
@@ -326,12 +408,15 @@ func c01GenStructured(r *rand.Rand) c01URLCase {
 			l := verifh.Pick(r, c01LitSegs)
 			path.WriteString(l)
 			c.segVals = append(c.segVals, "\x00skip")
+			c.segKey, c.segWrap = append(c.segKey, "\x00lit"), append(c.segWrap, false)
 		case 1:
 			k := pickKey()
 			if k == "unset" {
 				path.WriteString("lit")
+				c.segKey, c.segWrap = append(c.segKey, "\x00lit"), append(c.segWrap, false)
 			} else {
 				path.WriteString("{" + k + "}")
+				c.segKey, c.segWrap = append(c.segKey, k), append(c.segWrap, false)
 			}
 			if v, ok := val(k); ok {
 				c.segVals = append(c.segVals, v)
@@ -342,8 +427,10 @@ func c01GenStructured(r *rand.Rand) c01URLCase {
 			k := pickKey()
 			if k == "unset" {
 				path.WriteString("p-lit-s")
+				c.segKey, c.segWrap = append(c.segKey, "\x00lit"), append(c.segWrap, false)
 			} else {
 				path.WriteString("p-{" + k + "}-s")
+				c.segKey, c.segWrap = append(c.segKey, k), append(c.segWrap, true)
 			}
 			if v, ok := val(k); ok {
 				c.segVals = append(c.segVals, "p-"+v+"-s")
@@ -380,7 +467,9 @@ func c01GenStructured(r *rand.Rand) c01URLCase {
 			// "?q" / "#f": parseRequestURL prefixes "/"
 			c.nSeg = 1
 			c.segVals = []string{"\x00skip"}
+			c.segKey, c.segWrap = []string{"\x00lit"}, []bool{false}
 		}
+		c.relative = true
 		// an empty first segment turns the relative reference into "//authority…": url.Parse may
 		// then reject what follows (the call fails; it never reaches the wire)
 		c.mayFail = nseg > 0 && len(c.segVals) > 0 && c.segVals[0] == ""
@@ -496,27 +585,20 @@ func TestVerif_C01_url(t *testing.T) {
 	r := s.Rand()
 	n := verifh.N(12000, 300000)
 	c := C()
-	for i := 0; i < n; i++ {
-		var tc c01URLCase
-		if r.Intn(3) == 0 {
-			tc = c01GenWild(r)
-			s.Count("wild")
-		} else {
-			tc = c01GenStructured(r)
-			s.Count("structured")
-		}
+	// judge runs the real parseRequestURL on the Request as it stands NOW and compares with the
+	// model / the structure oracle of the description `tc` — a function of the current fields only
+	judge := func(tc c01URLCase, req *Request, step string) {
 		c.PathParams = tc.cPath
 		c.QueryParams = tc.cQuery
 		c.BaseURL = tc.base
 		c.scheme = tc.scheme
-		req := c.R()
 		req.RawURL = tc.rawURL
 		req.PathParams = tc.rPath
 		req.QueryParams = tc.rQuery
 		var err error
 		if p, bad := verifh.Safely(func() { err = parseRequestURL(c, req) }); bad {
 			s.Crash(fmt.Sprintf("%q", tc.rawURL), "parseRequestURL panicked", p, "")
-			continue
+			return
 		}
 		ans := "err"
 		ok := true
@@ -589,8 +671,31 @@ func TestVerif_C01_url(t *testing.T) {
 			verifh.Hex(tc.scheme) + " " + verifh.Hex(tc.base) + " " + c01QMap(tc.cQuery) + " " + c01QMap(tc.rQuery)
 		nontriv := err == nil && (len(tc.rPath)+len(tc.cPath)+len(tc.cQuery)+len(tc.rQuery) > 0)
 		s.Case(line, ans, ok, class, nontriv,
-			fmt.Sprintf("url=%q rpath=%q cpath=%q scheme=%q base=%q cq=%q rq=%q", tc.rawURL, tc.rPath, tc.cPath, tc.scheme, tc.base, tc.cQuery, tc.rQuery))
+			step+fmt.Sprintf("url=%q rpath=%q cpath=%q scheme=%q base=%q cq=%q rq=%q", tc.rawURL, tc.rPath, tc.cPath, tc.scheme, tc.base, tc.cQuery, tc.rQuery))
 	}
-	s.Need(t, "wild", "structured", "ok", "err")
+	for i := 0; i < n; i++ {
+		var tc c01URLCase
+		if r.Intn(3) == 0 {
+			tc = c01GenWild(r)
+			s.Count("wild")
+		} else {
+			tc = c01GenStructured(r)
+			s.Count("structured")
+		}
+		req := c.R()
+		judge(tc, req, "")
+		// round 6 — the SAME *Request goes through parseRequestURL again (a retry attempt, a second
+		// Send) after its description was changed: 1..3 further steps, each judged on its own
+		if r.Intn(3) == 0 {
+			for k, m := 0, 1+r.Intn(3); k < m; k++ {
+				var what string
+				tc, what = c01EditURLCase(r, tc)
+				s.Count("resend")
+				s.Count("resend-edit:" + what)
+				judge(tc, req, fmt.Sprintf("[same *Request, run %d, after edit of %s] ", k+2, what))
+			}
+		}
+	}
+	s.Need(t, "wild", "structured", "ok", "err", "resend", "resend-edit:rpath", "resend-edit:cpath", "resend-edit:paths", "resend-edit:rquery", "resend-edit:cquery", "resend-edit:all")
 	s.Finish()
 }
